@@ -3,6 +3,7 @@
 CONSTANTS
   Interps = {"i1"}
   UnwindOnFailure = FALSE
+  DetachCallerEnv = TRUE
   Mode = "c10"
   ModSeq <- Mods2
   MaxOut = 0
